@@ -122,6 +122,7 @@ func c10Shard(t Tier, shard, nshards int) (run *report.Run) {
 	cases := buildShard(e, maxLen, shard, nshards)
 	cases = append(cases, upgradeCases(e, shard, nshards)...) // histories containing an in-process software upgrade
 	cases = append(cases, longCases(e, shard, nshards)...)
+	cases = append(cases, cleanupCases(e, shard, nshards)...)
 	cases = append(cases, variantCases(e, shard, nshards)...) // what genesis import left in process memory must not matter after a restart
 	var mu sync.Mutex
 	evals, nontrivial := 0, 0
